@@ -4,6 +4,7 @@ import (
 	"crypto/x509"
 	"crypto/x509/pkix"
 	"fmt"
+	"github.com/gr33nbl00d/caddy-revocation-validator/config"
 	"math/big"
 	"net/http"
 	"sort"
@@ -242,7 +243,7 @@ func (k *c14Cast) run(cfg c14Cfg, hist []int) (key string, viols []c14Viol, trac
 				// Flush of the shared table is allowed to drop entries; the model keeps them (a hit after a flush would
 				// simply not happen). Entries the model holds are upper bounds for what may be served.
 			}
-					return false
+			return false
 		}
 		for _, e := range hist {
 			if step(e) {
@@ -359,6 +360,69 @@ func c14IssuerPairs(chk *fw.Check) int {
 	return n
 }
 
+// c14TwoModules: two instances of the caddy module in one process with different default_cache_duration (all four
+// orders of {0, 1h} x provisioning order). Each instance caches by its own configuration: on the instance with
+// duration 0 every handshake asks the responder and sees a flip to revoked at once; on the 1h instance the second
+// handshake is a hit.
+func c14TwoModules(chk *fw.Check) int {
+	p := world.Std()
+	n := 0
+	for _, zeroFirst := range []bool{true, false} {
+		n++
+		sig := fmt.Sprintf("zero-duration-instance-provisioned-first=%v", zeroFirst)
+		seqWorld(func() {
+			net := world.NewNet()
+			revoked := false
+			net.Routes[c14URLA] = &world.Behaviour{Label: "ocsp", Fn: func(req *http.Request, body []byte) (int, []byte, error) {
+				r, err := xocsp.ParseRequest(body)
+				if err != nil {
+					return 400, nil, nil
+				}
+				st := xocsp.Good
+				if revoked {
+					st = xocsp.Revoked
+				}
+				return 200, world.BuildOCSP(world.OCSPAnswer{Status: st, Serial: r.SerialNumber, Issuer: p.CA, Signer: p.CA, ThisUpdate: vsched.Now().Add(-time.Minute)}), nil
+			}}
+			mk := func(dur string) *TW {
+				w := NewTW(TWOpt{Mode: "ocsp_only", Net: net, OCSP: &config.OCSPConfig{DefaultCacheDuration: dur}})
+				if err := w.Provision(); err != nil {
+					panic("c14TwoModules: " + err.Error())
+				}
+				return w
+			}
+			var zero, hour *TW
+			if zeroFirst {
+				zero, hour = mk("0s"), mk("1h")
+			} else {
+				hour, zero = mk("1h"), mk("0s")
+			}
+			la := world.Leaf(p.CA, bi(5100), nil, []string{c14URLA})
+			lb := world.Leaf(p.CA, bi(5101), nil, []string{c14URLA})
+			// the zero-duration instance: two handshakes, two requests; flip; rejected
+			zero.Handshake(world.Chain(la, p.CA, p.Root))
+			zero.Handshake(world.Chain(la, p.CA, p.Root))
+			if h := len(net.Hits); h != 2 {
+				chk.Violation("C14|hit-with-zero-lifetime|two-modules|"+sig, fmt.Sprintf("the instance with default_cache_duration 0 (another instance has 1h) sent %d request(s) for two handshakes", h), nil)
+			}
+			revoked = true
+			if v := zero.Handshake(world.Chain(la, p.CA, p.Root)); !v.Rejected() {
+				chk.Violation("C14|stale-hit|two-modules|"+sig, "the instance with default_cache_duration 0 accepted the certificate after the responder had flipped to revoked", nil)
+			}
+			revoked = false
+			// the 1h instance: second handshake of another certificate is a hit
+			net.ResetHits()
+			hour.Handshake(world.Chain(lb, p.CA, p.Root))
+			hour.Handshake(world.Chain(lb, p.CA, p.Root))
+			hits1h := len(net.Hits)
+			_ = hits1h // a miss here is not a violation of the statement (an entry may always be dropped early)
+			zero.Cleanup()
+			hour.Cleanup()
+		})
+	}
+	return n
+}
+
 // RunC14 is the entry point of the C14 check.
 func RunC14(tier string, args []string) int {
 	chk := fw.NewCheck("C14", tier, "model_checking")
@@ -412,7 +476,7 @@ func RunC14(tier string, args []string) int {
 	}
 	samples = append(samples, map[string]interface{}{"config": "default=10m nextUpdate=absent", "history": []string{"lookup(c1,V1)", "advance(L/2)", "lookup(c1,V1)", "advance(L/2)", "flipA(c1->revoked)", "lookup(c1,V1)"}})
 	samples = append(samples, map[string]interface{}{"config": "default=10m nextUpdate=absent", "history": []string{"lookup(c1',V1)", "flipA(c1->revoked)", "lookup(c1,V2)"}})
-	pairCases := c14IssuerPairs(chk)
+	pairCases := c14IssuerPairs(chk) + c14TwoModules(chk)
 	cov := fw.Coverage{
 		"states":                        total.States + pairCases,
 		"transitions":                   total.Transitions + 2*pairCases,
